@@ -45,7 +45,7 @@ func init() {
 				out = L(A("panic:"+panicClass(fmt.Sprint(r))), L())
 			}
 		}()
-		todos := todo.NewTodoApp().AnalysisPath(dir, exts)
+		todos := todo.NewTodoApp().AnalysisPath(rootArg(dir, in.Nth(1)), exts)
 		type row struct {
 			file string
 			sx   Sx
